@@ -182,21 +182,32 @@ def CostModel.costEstimate (m : CostModel α) (src dst : List α) : Option α :=
   | some v => some (enforceNonNegative v)
   | none => none
 
+/-- what `CostModel::new` knows about one state feature: the entries of the three name-keyed
+mappings for the feature's name (`none` = the name is absent from that mapping) -/
+abbrev FeatureConfig (α : Type) := Option α × Option (VehicleCostRate α) × Option (NetworkCostRate α)
+
+/-- `weights_mapping.get(name).cloned().unwrap_or_default()`: an absent weight is `0.0` -/
+def FeatureConfig.weight (f : FeatureConfig α) : α :=
+  match f.1 with | some w => w | none => zero
+/-- `vehicle_rate_mapping.get(name).cloned().unwrap_or_default()`: an absent rate is `Zero` -/
+def FeatureConfig.vehicleRate (f : FeatureConfig α) : VehicleCostRate α :=
+  match f.2.1 with | some r => r | none => .zero
+/-- `network_rate_mapping.get(name).cloned().unwrap_or_default()`: an absent rate is `Zero` -/
+def FeatureConfig.networkRate (f : FeatureConfig α) : NetworkCostRate α :=
+  match f.2.2 with | some r => r | none => .zero
+
 /-- `CostModel::new`.  `features` has one entry per state feature, in the order
-`state_model.indexed_iter()` yields them (so the state indices are `0 … n-1`); each entry holds what
-the three name-keyed mappings contain for that feature's name (`none` = name absent, the code then
-takes the default: weight `0.0`, `VehicleCostRate::Zero`, `NetworkCostRate::Zero`).
+`state_model.indexed_iter()` yields them (so the state indices are `0 … n-1`).
 `none` = `Err(InvalidCostVariables)`: the weights sum to zero (`iter().sum::<f64>() == 0.0`). -/
-def CostModel.new (features : List (Option α × Option (VehicleCostRate α) × Option (NetworkCostRate α)))
-    (agg : CostAggregation) : Option (CostModel α) :=
-  let weights : List α := features.map fun f => match f.1 with | some w => w | none => zero
+def CostModel.new (features : List (FeatureConfig α)) (agg : CostAggregation) : Option (CostModel α) :=
+  let weights : List α := features.map FeatureConfig.weight
   let s : α := weights.foldl (· + ·) zero
   if s ≤ zero ∧ zero ≤ s then none
   else some {
     indices := List.range features.length
     weights := weights
-    vehicleRates := features.map fun f => match f.2.1 with | some r => r | none => .zero
-    networkRates := features.map fun f => match f.2.2 with | some r => r | none => .zero
+    vehicleRates := features.map FeatureConfig.vehicleRate
+    networkRates := features.map FeatureConfig.networkRate
     agg := agg }
 
 /-- `EdgeTraversal::total_cost` of the record built by `forward_traversal` / `reverse_traversal`:
